@@ -561,8 +561,28 @@ func (w *World) labels(pre, post map[string]interface{}, a Act) map[string]inter
 	if a.A == "V1Tick" {
 		ev["v1EsmDue"] = due("auctionsV1", nil)
 	}
-	ev["v2Esm"] = ev["v2EsmDue"].(int) > 0 // this block was due to run V2 TriggerEsm for at least one vault-initiated Dutch auction
-	ev["v1Esm"] = ev["v1EsmDue"].(int) > 0 // this V1 tick was due to close out at least one V1 Dutch auction under emergency shutdown
+	// v2Esm: a block under shutdown in which V2 TriggerEsm was due for a vault-initiated Dutch auction AND re-opened a vault (a new vault id, or an
+	// existing vault's collateral grew - nothing else does that in a block under shutdown); a due close-out that failed and was rolled back is not labelled
+	grew := false
+	preIn := map[uint64]int64{}
+	if vs, ok := pre["vaults"].([]interface{}); ok {
+		for _, x := range vs {
+			m := x.(map[string]interface{})
+			preIn[m["id"].(uint64)] = m["in"].(int64)
+		}
+	}
+	if vs, ok := post["vaults"].([]interface{}); ok {
+		for _, x := range vs {
+			m := x.(map[string]interface{})
+			if old, had := preIn[m["id"].(uint64)]; !had || m["in"].(int64) > old {
+				grew = true
+			}
+		}
+	}
+	ev["v2Esm"] = ev["v2EsmDue"].(int) > 0 && grew
+	// v1Esm: a V1 tick under shutdown that closed out at least one V1 Dutch auction
+	n1 := func(st map[string]interface{}) int { l, _ := st["auctionsV1"].([]interface{}); return len(l) }
+	ev["v1Esm"] = ev["v1EsmDue"].(int) > 0 && n1(post) < n1(pre)
 	ids := func(st map[string]interface{}) map[uint64]bool {
 		out := map[uint64]bool{}
 		list, _ := st["vaults"].([]interface{})
